@@ -242,7 +242,9 @@ def fkNoF64 : FK → Bool
     JAX guarantees while `jax_enable_x64` is off. -/
 def Entry.noF64 : Entry → Bool
   | .viaBindConst aval arr => optNoF64 aval && fkNoF64 arr
-  | .viaLiteral aval prefer src => optNoF64 aval && optNoF64 prefer && fkNoF64 src
+  | .viaLiteral aval prefer src =>
+    -- a Python float literal is float64 at the numpy level; what JAX controls is its aval
+    optNoF64 aval && optNoF64 prefer && (aval.isSome || prefer.isSome || fkNoF64 src)
   | .viaInitScalar src => fkNoF64 src
   | .viaClosedConst aval src => optNoF64 aval && fkNoF64 src
   | .viaAlloc aval => fkNoF64 aval
